@@ -4,7 +4,8 @@
      10 response kind/status   11 location      12 page/data     13 session jar
      14 cookie jar             15 user records (151..158 per field group)  16 remember table 17 mails
      18 sms                    19 backend calls 20 panic flag    21 oracle starved
-     22 error flag (admin operations) *)
+     22 error flag (admin operations)
+     23 number of log lines    24 every value the model says a log line carries occurs in that line *)
 From AB Require Export World.Step World.Exec.
 Open Scope Z_scope.
 
@@ -17,7 +18,8 @@ Record iobs := mkIobs {
   io_sess : amap; io_cook : amap;
   io_users : list user; io_rm : list (bytes * list bytes);
   io_mails : list mail; io_smss : list sms;
-  io_calls : list callkind
+  io_calls : list callkind;
+  io_logs : list bytes          (* the log lines of this step, whole *)
 }.
 
 Definition near (a b : Z) : bool := Z.abs (a - b) <=? 2.
@@ -128,7 +130,9 @@ Definition compare (b : bytes) (w' : world) (o : obs) (i : iobs) : list Z :=
   (if callkind_list_eqb (ob_calls o) (io_calls i) then [] else [19]) ++
   (if Bool.eqb (ob_panic o) (io_panic i) then [] else [20]) ++
   (if ob_starved o then [21] else []) ++
-  (if Bool.eqb (ob_err o) (io_err i) then [] else [22]).
+  (if Bool.eqb (ob_err o) (io_err i) then [] else [22]) ++
+  (if Nat.eqb (length (ob_logs o)) (length (io_logs i)) then [] else [23]) ++
+  (if forallb (fun al => forallb (fun a => bcontains a (snd al)) (fst al)) (combine (ob_logs o) (io_logs i)) then [] else [24]).
 
 Definition action_browser (a : action) : bytes :=
   match a with AReq r => q_browser r | APlant b _ _ => b | ASetJar _ b _ => b | _ => [] end.
